@@ -107,6 +107,10 @@ def check_op(i, name):
     case = _CASES[i]
     if case["name"] != name:
         return ("harness", "case enumeration is not deterministic")
+    if case["op"] in ("getitem", "setitem"):
+        # index objects are caller-owned inputs: every execution gets fresh ones (a defect that modifies an index
+        # object in place must not poison later executions of the same cell)
+        case = [c for c in ops.index_cases("quick") if c["name"] == name][0]
     kinds = case.get("kinds") or ("t",) * len(case["operands"])
     args = []
     for a, k in zip(case["operands"], kinds):
